@@ -7,11 +7,55 @@ CLAIMED = {
         "part of C04 that is pure computation; the lstat/content side is the OS and is not claimed.",
    note="Trusted: Kani/CBMC, rustc, std::fs::Metadata::mode (stubbed by a symbolic value), zip-entry mode source. Not covered: "
         "size/uid/gid/inode/mtime/xattr/digest/line_count columns, name decomposition, extension classes (see evidence.not_covered)."),
+
+ "C01": dict(engine="F", ref="5/C01",
+   technique="Kani full-domain harnesses on the depth-window fragments of visit_dir extracted verbatim each run",
+   text="The three arithmetic pieces of the depth window - level formula, report gate, descend gate - are extracted from visit_dir on "
+        "every run and proved for all u32 values against the statement's window (level 1 = directly inside the root; reported iff "
+        "min/max satisfied), plus the induction step that combines them. Unbounded over the integers involved; the traversal skeleton "
+        "that uses the gates is not verified.",
+   note="Trusted: the skeleton of visit_dir around the gates (T5), canonical_path/calc_depth, read_dir. Not covered: exactly-once, order, "
+        "symlinks, root parsing."),
+ "C02": dict(engine="F", ref="5/C02",
+   technique="Kani full-domain harnesses on the typed comparison arms of conforms and the BETWEEN desugaring, extracted each run",
+   text="The Int / Float / Bool / DateTime comparison tables of conforms (whole match arms incl. operand binding) and the BETWEEN "
+        "desugaring of parse_cond are proved equal to the documented relation for every operator and all i64 / non-NaN f64 / bool "
+        "operands (no bound).",
+   note="Trusted: get_field_value (which attribute), Variant coercions, string/regex arm, wiring of the fragments (T5)."),
+ "C03": dict(engine="K+F", ref="5/C03",
+   technique="Kani function contract on Op::negate + full-domain harnesses on comparison arms, logical block and NOT BETWEEN fragments",
+   text="Op::negate is proved (contract) to return the documented complement for all 14 operators; for every comparison operator and "
+        "all operands each typed arm under negate(op) is the logical negation of the arm under op; the logical block computes AND/OR; "
+        "NOT BETWEEN is the complement of BETWEEN for all i64 triples.",
+   note="Trusted: parser tree shape (precedence, brackets), string arm; float arm stated for non-NaN operands."),
+ "C06": dict(engine="F", ref="5/C06",
+   technique="Kani full-domain harnesses on the two early-exit conditions of visit_dir extracted each run",
+   text="Both LIMIT early-exit conditions (directory loop, archive-member loop) are proved to be exactly "
+        "!buffered && limit > 0 && found >= limit for all inputs: never taken for ordered/aggregated output or limit 0.",
+   note="Trusted: found accounting, TopN (BTreeMap: out of reach), is_buffered definition."),
+ "C07": dict(engine="F", ref="5/C07",
+   technique="Kani harness on the AVG division extracted from get_mean (bounded operand domain)",
+   text="The division in get_mean is proved to be the real quotient sum/count (bounded domain sum < 256, count <= 16: symbolic f64 "
+        "division does not terminate beyond it); labelled bounded in the evidence.",
+   note="Bounded stand-in, not an unbounded proof. Not covered: MIN/MAX/COUNT/variance arms."),
+ "C10": dict(engine="F", ref="5/C10",
+   technique="Kani full-domain harness on the exit-status mapping extracted from exec_search",
+   text="error_count -> exit status is proved to be 0 iff no error else 1 for all i32, and the parse-error arm to return 2.",
+   note="Only the status mapping so far; parser panic-freedom (Verus) is added separately."),
+ "C13": dict(engine="F", ref="5/C13",
+   technique="Kani full-domain harnesses on the DateTime arm of conforms extracted each run",
+   text="For all i64 entry times and all intervals a <= b the date arm is proved to implement = / != / < / > / <= / >= exactly as the "
+        "statement defines them, and exactly one of <, =, > holds.",
+   note="Trusted: parse_datetime (regex + chrono) produces the interval; start <= finish assumed."),
+ "C15": dict(engine="F", ref="5/C15",
+   technique="Kani harness on the operator table of ArithmeticOp::calc extracted each run (bounded: concrete witnesses)",
+   text="Operator dispatch of + - * / checked on 8 concrete witness pairs (symbolic f64 arithmetic does not terminate in CBMC); bounded.",
+   note="Bounded stand-in. Not covered: precedence/associativity, column independence (Display for Expr), %."),
 }
 PENDING = "no contract-based check built yet in this revision (planned: DESIGN.md section 5)"
 NOT_APPLICABLE = {
- "C01": PENDING, "C02": PENDING, "C03": PENDING, "C05": PENDING, "C06": PENDING, "C07": PENDING, "C09": PENDING,
- "C10": PENDING, "C11": PENDING, "C12": PENDING, "C13": PENDING, "C14": PENDING, "C15": PENDING, "C16": PENDING,
+ "C05": PENDING, "C09": PENDING,
+ "C11": PENDING, "C12": PENDING, "C14": PENDING, "C16": PENDING,
  "C08": "GROUP BY partitioning lives in iterator-adapter closures over HashMap<Vec<String>, Vec<HashMap<String,String>>>: Verus rejects the adapters, CBMC does not finish two string-keyed rows; no closed fragment carries the partition property (DESIGN.md section 6)",
  "C17": "fault isolation is about read_dir/open failures, closed pipes and the process exit status (OS behaviour); the only closed fragment (error_count -> status) is proved under C10 and does not decide C17",
  "C18": "termination and at-most-once traversal over arbitrary symlink graphs is a whole-history property of visit_dir plus the OS namespace; ok_to_visit_dir needs a DirEntry that cannot be constructed by a verifier",
